@@ -362,3 +362,13 @@ pub(crate) mod verif {
         compare_items(a, b, context)
     }
 }
+
+/// Verification hook (compiled only with `--cfg rustfmt_verif`).
+#[cfg(rustfmt_verif)]
+pub(crate) mod verif_imports {
+    use super::*;
+
+    pub(crate) fn group(uts: Vec<UseTree>) -> Vec<Vec<UseTree>> {
+        group_imports(uts)
+    }
+}
